@@ -3,4 +3,4 @@ From Coq Require Extraction ExtrOcamlBasic.
 From Verif Require Import A64.A64Tmpl A64.A64Sem.
 From VerifGen Require Import IsaA64Db.
 Extraction Blacklist List String Int.
-Extraction "a64spec.ml" A64Sem.spec_a64 IsaA64Db.rows IsaA64Db.alt_table IsaA64Db.mov_mn A64Tmpl.tmatch A64Tmpl.tfield.
+Extraction "a64spec.ml" A64Sem.spec_a64 IsaA64Db.rows IsaA64Db.alt_table IsaA64Db.mov_mn IsaA64Db.rows_excluded A64Sem.spec_row A64Tmpl.tmatch A64Tmpl.tfield.
